@@ -30,7 +30,7 @@ INFO = dict(
               'offset 0, size = 4+10+|p|, CRC field = CRC32(magic,attr,key=-1,value) (uninterpreted CRC with the chaining law), magic 0, attr 0, '
               "null key, value = payload. The harness's own encoder builds produce/metadata responses from symbolic values and the real decoders "
               'must return exactly those; a reply frame is delivered to the request registered under its correlation id only.',
-  bounds={'quick': 'topic <=2 bytes; <=2 payloads of <=3 symbolic bytes; responses: <=1 topic x <=2 partitions; metadata <=2 brokers, 1 topic, <=2 partitions, <=2 replicas/isr; all integers over their full wire range',
+  bounds={'quick': 'topic <=2 bytes; <=2 payloads of <=3 symbolic bytes; responses: <=1 topic x <=2 partitions; metadata <=2 brokers, 1 topic, <=2 partitions, <=2 replicas/isr; all integers over their full wire range; 2 different Put requests serialized at symbolic instants while the transport is still opening',
           'thorough': 'topic <=4 bytes; <=3 payloads of <=4 bytes; responses <=2 topics x <=2 partitions'},
   outside=['larger payload lists / longer payloads (sizes are computed by the same code paths; not claimed)', 'real CRC32 arithmetic (uninterpreted function + chaining law, checked concretely against zlib on every replay)',
            'the router sink above the transport (metadata refresh, leader selection)'],
